@@ -2,6 +2,7 @@ package tasksim
 
 import (
 	"fmt"
+	"math/big"
 	"sort"
 	"strings"
 )
@@ -1072,7 +1073,9 @@ func (r *Run) ForeignLogOracle() []string {
 				name := map[string]string{"transfer": "Transfer", "decoy-topic": "Approval", "decoy-count": "four-topic Transfer", "created": "Created",
 					"tags": "Tags", "decoy-nodata": "OwnershipTransferred", "decoy-short": "Ping"}[found.Kind]
 				msg = fmt.Sprintf("a%s %s log (kind %s: %d topics, %d bytes of data), not a log of the declared event", map[bool]string{true: "n"}[name == "Approval" || name == "OwnershipTransferred"], name, found.Kind, len(found.Topics), len(found.Data))
-			case t.Spec.AddrFlt && string(found.Addr) != string(TokenAddr):
+			case want == "transfer" && !t.Spec.accepts(found):
+				msg = "a log that the declared filters (address / recipient, under the declared aggregation) reject"
+			case want != "transfer" && t.Spec.AddrFlt && string(found.Addr) != string(TokenAddr):
 				msg = "a log of another contract than the declared address filter admits"
 			}
 			if msg != "" {
@@ -1084,6 +1087,53 @@ func (r *Run) ForeignLogOracle() []string {
 		}
 		if n > 3 {
 			bad = append(bad, fmt.Sprintf("task %d: %d such rows in all", t.ID, n))
+		}
+		// and the converse for the plain log shapes: every log of the indexed range that the
+		// declaration accepts has its row
+		switch t.Spec.Shape {
+		case "log", "lognh", "logr", "appr", "created":
+		default:
+			continue
+		}
+		cur, has := newestCur(last, w.pair(t))
+		if !has || t.Info.Start == 0 {
+			continue
+		}
+		have := map[string]bool{}
+		for _, rw := range pairRows(last, w.pair(t)) {
+			var txi, li uint64
+			if _, err := fmt.Sscanf(w.Names.KeyStr(rw.Key), "%d/%d/", &txi, &li); err == nil {
+				have[fmt.Sprintf("%d/%d/%d", rw.BNum, txi, li)] = true
+			}
+		}
+		m := 0
+		for bn := t.Info.Start; bn <= cur.Num; bn++ {
+			b := final.At(bn)
+			if b == nil {
+				break
+			}
+			for _, rv := range t.Spec.Project(final, b, t.Info.SrcName) {
+				txi, _ := rv["tx_idx"].(*big.Int)
+				li, _ := rv["log_idx"].(*big.Int)
+				if txi == nil || li == nil || have[fmt.Sprintf("%d/%s/%s", bn, txi, li)] {
+					continue
+				}
+				if m++; m <= 3 {
+					from := ""
+					for _, tx := range b.Txs {
+						for _, l := range tx.Logs {
+							if l.Idx == li.Uint64() {
+								from = fmt.Sprintf(" (emitted by contract %x, recipient / second topic %x)", l.Addr[16:], l.To[min(16, len(l.To)):])
+							}
+						}
+					}
+					bad = append(bad, fmt.Sprintf("task %d (integration %q, shape %s) at position %d: no row for block %d tx %s log %s%s, a log of the declared event that the declared filters accept",
+						t.ID, t.Info.IGName, t.Spec.Shape, cur.Num, bn, txi, li, from))
+				}
+			}
+		}
+		if m > 3 {
+			bad = append(bad, fmt.Sprintf("task %d: %d such logs in all", t.ID, m))
 		}
 	}
 	return bad
